@@ -20,13 +20,28 @@ def getTransmissionData_ext(I, selfv, args, kwargs):
     """Serializer.getTransmissionData (contract proved in unit serializer.getTransmissionData): None while a
     dump is being written, on failure to open it or on a read error, else (data, isFirst, isLast)"""
     ctx = I.ctx
-    if ctx.decide(FreshBool('noTransmission'), 'transmission-none'):
-        return None
+    node = I.unwrap(args[0], 'transmission-id')
+    tr = ctx.ghost.get('transmitting')
+
+    def set_bit(val):
+        if tr is not None and isinstance(node, NodeV):
+            ctx.ghost['transmitting'] = [Ite(Eq(node.idx, i), val, b) if is_sym(Eq(node.idx, i)) else (val if Eq(node.idx, i) else b)
+                                         for i, b in enumerate(ctx.ghost['transmitting'])]
+    ctx.ghost['transmission_calls'] = ctx.glist('transmission_calls') + [node]
+    if ctx.decide(FreshBool('dumpBeingWritten'), 'transmission-none'):
+        return None                      # __pid != 0: nothing touched
     if ctx.decide(FreshBool('transmissionReadError'), 'transmission-read-error'):
+        set_bit(False)                   # open/read error: the transfer state is dropped
         return None
     last = FreshBool('isLastChunk')
+    had = Or(*[And(Eq(node.idx, i), b) for i, b in enumerate(tr)]) if tr is not None and isinstance(node, NodeV) else FreshBool('hadTransmission')
+    set_bit(Not(last))                   # the last (empty) chunk removes the transfer state
     ctx.ghost['chunks'] = ctx.glist('chunks') + [last]
-    return ('chunk-bytes', FreshBool('isFirstChunk'), last)
+    ctx.ghost['first_flags'] = ctx.glist('first_flags') + [(had,)]
+    # isFirst is true for a new transfer (unit serializer.getTransmissionData, O9.5.isFirst-iff-nothing-transmitted)
+    first = FreshBool('isFirstChunk')
+    ctx.assume(Implies(Not(had), first))
+    return ('chunk-bytes', first, last)
 
 
 def _chunk_loop_spec(so, ctx):
@@ -82,12 +97,21 @@ def send_append_entries(ctx):
     node = peer(ctx, so)
     U = so.U
     voters, obs, conn = so.cell('otherNodes').bits, so.cell('readonlyNodes').bits, so.cell('connectedNodes').bits
-    ctx.assume(Or(*[And(Eq(node.idx, i), Or(voters[i], obs[i]), conn[i]) for i in range(U)]))
     nx = so.cell('raftNextIndex')
     nni = I_select(nx, node)
+    # loop invariant of the per-node while loop (established by the `if node not in connectedNodes: continue` guard in front of it,
+    # re-established below): the node is connected, or - after a send found the connection dead inside the chunk loop - its
+    # nextIndex is beyond the snapshot branch
+    ctx.assume(Or(*[And(Eq(node.idx, i), Or(voters[i], obs[i]), Or(conn[i], nni > to_z3(so.log().first))) for i in range(U)]))
     # A-PROTO-4: a follower's nextIndex is at or below the first journal index only after a compaction, and a compacted
     # journal holds at least the two entries of its snapshot point
     ctx.assume(Implies(nni <= to_z3(so.log().first), to_z3(so.log().n) >= 2))
+    # I10 (ghost): leader-side transfer state exists only for nodes that have been connected ever since it was created;
+    # loop invariant of the per-node while loop: the node is connected, or its nextIndex is beyond the snapshot branch
+    tr0 = [FreshBool('transmitting%d' % i) for i in range(U + 1)]
+    ctx.assume(And(*[Implies(tr0[i], conn[i]) for i in range(U)]))
+    ctx.assume(Not(tr0[U]))
+    ctx.ghost['transmitting'] = list(tr0)
     old = so.snapshot()
     olog = old.get('raftLog')
     loop = _loop_body(so.mod, SEND, 1)
@@ -101,10 +125,12 @@ def send_append_entries(ctx):
     B = so.conf('appendEntriesBatchSizeBytes')
     loc = {'node': node, 'nextNodeIndex': nni, 'sendSingle': FreshBool('sendSingle'), 'sendingSerialized': FreshBool('sendingSerialized'),
            'batchSizeBytes': B, 'startTime': FreshReal('startTime')}
+    left_loop = False
     try:
         kind, v, fr = run_region(I, so, SEND, loop.body, loc)
-    except (_Break, _Continue):
+    except (_Break, _Continue) as e:
         kind, v = 'ok', None
+        left_loop = isinstance(e, _Break)
     ctx.prove(kind == 'ok', 'C11+C01+C09:O11.5.send-loop.no-exception', info=getattr(v, 'typ', None))
     if kind != 'ok':
         return
@@ -136,6 +162,17 @@ def send_append_entries(ctx):
                 ctx.prove(Implies(nni <= last, nx1 == nni + to_z3(en)), 'C01:G.nextIndex-advances-past-sent-batch')
         elif 'serialized' in it:
             ctx.prove(nni <= first, 'C09+C01:G.snapshot-only-when-follower-behind-log-start')
+    # O9.7 / I10 kept by the send loop: transfer state is created only for a connected node and is gone again whenever the
+    # connection is found dead during a send, so an interrupted transfer restarts with its first chunk
+    cn1 = so.cell('connectedNodes').bits
+    tr1 = ctx.ghost['transmitting']
+    for i in range(U):
+        ctx.prove(Implies(tr1[i], cn1[i]), 'C09:O9.7.transfer-state-only-for-connected-nodes')
+    for nd in ctx.glist('transmission_calls'):
+        ctx.prove(isinstance(nd, NodeV) and Eq(nd.idx, node.idx), 'C09:O9.7.transfer-keyed-by-the-receiving-node')
+    if not left_loop:
+        still_ = Or(*[And(Eq(node.idx, i), cn1[i]) for i in range(U)])
+        ctx.prove(Or(still_, nx1 > first), 'C09:O9.7.loop-invariant.connected-or-beyond-snapshot-branch')
     chunks = ctx.glist('chunks')
     if chunks:
         still = Or(*[And(Eq(node.idx, i), so.cell('connectedNodes').bits[i]) for i in range(U)])
@@ -148,6 +185,55 @@ def send_append_entries(ctx):
     for n, b in field_unchanged(old, so, ['raftLog', 'raftCommitIndex', 'raftCurrentTerm', 'raftState', 'raftMatchIndex', 'otherNodes',
                                           'raftLastApplied', 'votedForNodeId', 'lastResponseTime']):
         ctx.prove(b, 'C01+C04+C03+C20:O20.2.send-loop.frame.%s' % n)
+
+
+@unit(name='sendAppendEntries.per-node-guard', relpath=MOD, qual=[SEND], props=['C09'],
+      kind='statements of the per-node `for` loop of __sendAppendEntries in front of the `while` loop, for an arbitrary member or observer',
+      doc='O9.7: establishes the invariant of the per-node send loop - the loop is entered only for a connected node, with '
+          'nextNodeIndex == raftNextIndex[node], sendSingle set and sendingSerialized clear; a node that is not connected gets nothing sent '
+          'and keeps no snapshot transfer state (I10 kept)',
+      trusted=['T-TRANSPORT'])
+def send_guard(ctx):
+    so = SO(ctx, UNIVERSE())
+    so.assume_inv()
+    ctx.assume(so.get('raftState') == LEADER)
+    node = peer(ctx, so)
+    U = so.U
+    voters, obs, conn = so.cell('otherNodes').bits, so.cell('readonlyNodes').bits, so.cell('connectedNodes').bits
+    ctx.assume(Or(*[And(Eq(node.idx, i), Or(voters[i], obs[i])) for i in range(U)]))
+    tr0 = [FreshBool('transmitting%d' % i) for i in range(U + 1)]
+    ctx.assume(And(*[Implies(tr0[i], conn[i]) for i in range(U)]))
+    ctx.assume(Not(tr0[U]))
+    ctx.ghost['transmitting'] = list(tr0)
+    outer = _loop_body(so.mod, SEND, 0)
+    if not isinstance(outer, ast.For) or not outer.body or not isinstance(outer.body[-1], ast.While):
+        raise Undecided('loop #0 of __sendAppendEntries is not the per-node for loop ending in the send loop any more')
+    old = so.snapshot()
+    I = make_interp(ctx, so, registry=dict(SUMMARIES))
+    skipped = False
+    fr = None
+    try:
+        kind, v, fr = run_region(I, so, SEND, outer.body[:-1], {'node': node})
+    except _Continue:
+        kind, v, skipped = 'ok', None, True
+    ctx.prove(kind == 'ok', 'C09:O9.7.guard.no-exception', info=getattr(v, 'typ', None))
+    if kind != 'ok':
+        return
+    isconn = Or(*[And(Eq(node.idx, i), conn[i]) for i in range(U)])
+    ctx.prove(Iff(isconn, True) if not skipped else Not(isconn), 'C09+C01:O9.7.send-loop-entered-iff-node-connected')
+    ctx.prove(len(ctx.glist('outbox')) == 0, 'C09:O9.7.guard.nothing-sent-before-the-loop')
+    tr1 = ctx.ghost['transmitting']
+    cn1 = so.cell('connectedNodes').bits
+    for i in range(U):
+        ctx.prove(Implies(tr1[i], cn1[i]), 'C09:O9.7.transfer-state-only-for-connected-nodes')
+        ctx.prove(Implies(And(tr0[i], Not(Eq(node.idx, i))), tr1[i]), 'C09:O9.7.guard.other-transfers-untouched')
+    if not skipped:
+        nni = I_select(old.get('raftNextIndex'), node)
+        ctx.prove(Eq(fr.locals.get('nextNodeIndex'), nni), 'C09+C01:O9.7.guard.nextNodeIndex-is-the-node\'s-nextIndex')
+        ctx.prove(fr.locals.get('sendSingle') is True and fr.locals.get('sendingSerialized') is False, 'C09:O9.7.guard.flags-initialised')
+    for n, b in field_unchanged(old, so, ['raftLog', 'raftCommitIndex', 'raftCurrentTerm', 'raftState', 'raftMatchIndex', 'raftNextIndex', 'otherNodes',
+                                          'connectedNodes']):
+        ctx.prove(b, 'C09+C01:O9.7.guard.frame.%s' % n)
 
 
 def I_select(nm, node):
